@@ -16,6 +16,10 @@ class Fault(OSError):
     pass
 
 
+class Interrupt(KeyboardInterrupt):
+    """an interruption of the process (Ctrl-C, a signal handler raising SystemExit ...): not an Exception subclass"""
+
+
 INCOMPLETE = "<incomplete archive>"
 
 
@@ -25,6 +29,7 @@ class FS:
         self.dirs = {"/", "/tmp", "/out"}
         self.count = 0
         self.fail_at = None
+        self.fault_class = Fault
         self.log = []         # (operation, path) of every disk-changing operation that took effect
         self.tmp_n = 0
 
@@ -32,7 +37,7 @@ class FS:
     def tick(self, op, path):
         self.count += 1
         if self.fail_at is not None and self.count == self.fail_at:
-            raise Fault(f"injected fault at file-system operation #{self.count}: {op} {path}")
+            raise self.fault_class(f"injected {'fault' if self.fault_class is Fault else 'interruption'} at file-system operation #{self.count}: {op} {path}")
 
     def effect(self, op, path):
         self.log.append((op, str(path)))
